@@ -135,14 +135,23 @@ class GroundedEffect:
     def _update_single_numeric_expression(
         numeric_expression: NumericalExpressionTree,
         previous_state_functions: Dict[str, PDDLFunction],
+        current_state_functions: Optional[Dict[str, PDDLFunction]] = None,
     ) -> PDDLFunction:
         """Updates the numeric value of a single numeric expression.
 
         :param numeric_expression: the expression that represents the change to the state.
         :param previous_state_functions: the previous values of the numeric expressions to use to evaluate
             the next state functions.
+        :param current_state_functions: the fluents of the state that is being constructed, the changed
+            function's own value is read from them (defaults to the previous state functions).
         """
-        set_expression_value(numeric_expression.root, previous_state_functions)
+        if current_state_functions is None:
+            current_state_functions = previous_state_functions
+
+        # The right-hand side is evaluated in the state before the action, the changed function
+        # accumulates on the state that is being constructed.
+        set_expression_value(numeric_expression.root.children[0], current_state_functions)
+        set_expression_value(numeric_expression.root.children[1], previous_state_functions)
         return evaluate_expression(numeric_expression.root)
 
     @property
@@ -159,10 +168,12 @@ class GroundedEffect:
 
         return numerical_fluents
 
-    def apply(self, state: State) -> None:
+    def apply(self, state: State, previous_state: Optional[State] = None) -> None:
         """Applies the effect to the given state.
 
         :param state: the state in which the effect is applied.
+        :param previous_state: the state before the action was applied, used to evaluate the numeric
+            expressions of the effect (defaults to the state the effect is applied to).
         """
         self.logger.debug("The antecedents for the effect hold so applying the effect.")
         self._apply_discrete_effects(next_state_predicates=state.state_predicates)
@@ -170,7 +181,11 @@ class GroundedEffect:
         for grounded_expression in self.grounded_numeric_effects:
             new_values.append(
                 self._update_single_numeric_expression(
-                    grounded_expression, previous_state_functions=state.state_fluents
+                    grounded_expression,
+                    previous_state_functions=(
+                        previous_state if previous_state is not None else state
+                    ).state_fluents,
+                    current_state_functions=state.state_fluents,
                 )
             )
 
